@@ -1,11 +1,11 @@
 (* Extraction of the Tree model (RBTree.v) and its specification for the correspondence
    driver.  ExtrOcamlBasic only; numbers stay the extracted inductive types. *)
 From Coq Require Import List Arith NArith ZArith Extraction ExtrOcamlBasic.
-From CelloV Require Import RBTree.
+From CelloV Require Import Generated RBTree.
 
 (* Int keys *)
 Definition zt_empty := t_empty Z Z.
-Definition zt_step := t_step Z Z int_cmp.
+Definition zt_step := t_step Z Z int_cmp tree_rem_use_succ.
 Definition zt_set_all := t_set_all Z Z int_cmp.
 Definition zt_fwd := iter_forward Z Z.
 Definition zt_bwd := iter_backward Z Z.
@@ -14,7 +14,7 @@ Definition zs_step := spec_step Z Z int_cmp.
 Definition zs_set_all := a_set_all Z Z int_cmp.
 (* String keys (byte lists) *)
 Definition st_empty := t_empty (list N) Z.
-Definition st_step := t_step (list N) Z bytes_cmp.
+Definition st_step := t_step (list N) Z bytes_cmp tree_rem_use_succ.
 Definition st_set_all := t_set_all (list N) Z bytes_cmp.
 Definition st_fwd := iter_forward (list N) Z.
 Definition st_bwd := iter_backward (list N) Z.
